@@ -11,14 +11,6 @@ does to it - preserves `J`; the `*_spec` lemmas walk through `setup`, the body a
 namespace C05
 open C04
 
-def umaskOf (um mode : Nat) : Nat := mode &&& (0o7777 ^^^ (um &&& 0o7777))
-
-/-- the permission bits of the part file's inode as determined by the events so far -/
-def modeAfter (um : Nat) (cur : Option Nat) : Ev → Option Nat
-  | .openPart _ _ md => some (umaskOf um md)
-  | .chmodPart md => some md
-  | _ => cur
-
 theorem append_singleton_inj {α} (l : List α) (x y : α) (h : l ++ [x] = l ++ [y]) : x = y := by
   simpa using h
 
@@ -450,7 +442,7 @@ theorem callClose_spec (fs0 : FS) (plan : Plan) (m : M) (s s' : St) (W : Bytes)
     obtain ⟨fs', hf⟩ := close_ok fs0 m s W h hopen hph
     obtain ⟨_, hj, _, _⟩ := key m h
     simp only [hf]
-    have hx : (exe m .close).2 = { m with fs := fs', n := m.n + 1, tr := m.tr ++ [Ev.close] } := by simp [exe, hf]
+    have hx : (exe m .close).2 = { m with fs := fs', n := m.n + 1, tr := m.tr ++ [Ev.close], obs := m.obs ++ [.ok .close] } := by simp [exe, hf]
     rw [hx] at hj
     exact ⟨J_congr _ _ _ _ _ hj rfl rfl rfl rfl, by simp, by simp, by simp, by simp, by simp⟩
   | pass =>
@@ -1501,13 +1493,16 @@ theorem setup_ok (cfg : Cfg) (fs0 : FS) (e : Nat) (plan : Plan) (hp : ∀ k, pla
   | some p => exact openPartFile_ok cfg fs0 plan hp m1 p true hj1 hp1
   | none =>
     dsimp only
-    have hstat : callStat plan m1 = (.ok m1.fs.destMode, { m1 with n := m1.n + 1 }) := by
+    have hstat : callStat plan m1 = (.ok m1.fs.destMode, (callStat plan m1).2) := by
       simp [callStat, hp]
+    have hfs : (callStat plan m1).2.fs = m1.fs := by simp [callStat, hp]
+    have hj2 : J fs0 (callStat plan m1).2 St.init [] :=
+      J_congr _ _ _ _ _ hj1 hfs (by simp [callStat, hp]) (by simp [callStat, hp]) (by simp [callStat, hp])
+    have hp2 : (callStat plan m1).2.fs.dir.part = none := by rw [hfs]; exact hp1
     rw [hstat]
-    have hj2 : J fs0 { m1 with n := m1.n + 1 } St.init [] := J_congr _ _ _ _ _ hj1 rfl rfl rfl rfl
     cases m1.fs.destMode with
-    | some md => exact openPartFile_ok cfg fs0 plan hp _ md true hj2 hp1
-    | none => exact openPartFile_ok cfg fs0 plan hp _ RW_PERMS false hj2 hp1
+    | some md => exact openPartFile_ok cfg fs0 plan hp _ md true hj2 hp2
+    | none => exact openPartFile_ok cfg fs0 plan hp _ RW_PERMS false hj2 hp2
 
 /-- a save with nothing in its way and no fault completes -/
 theorem runSave_nofault_ok (cfg : Cfg) (fs0 : FS) (e : Nat) (body : Body) (plan : Plan) (hp : ∀ k, plan k = .pass)
